@@ -1,4 +1,7 @@
+pub mod api;
 pub mod flow;
+pub mod gamma;
 pub mod matrix;
 pub mod sample;
 pub mod table;
+pub mod vector;
